@@ -20,6 +20,8 @@ static void family_of(Rng& r, const Str& seed, StrVec* out) {
         { Comp x = b; x.hasUser = true; x.user = b.user + "u"; add(x); }
         { Comp x = b; x.hasPort = !x.hasPort; x.port = ""; add(x); }
         { Comp x = b; x.hasPort = true; x.port = b.port + "1"; add(x); }
+        // the ports that "mean nothing" for some scheme (80, 443, 21 ...): an explicit default port is a different URI all the same
+        { static const char* const DP[] = {"80", "443", "21", "8080", "0", "080"}; for (const char* dp : DP) { Comp x = b; x.hasPort = true; x.port = dp; add(x); } }
         if (b.hostKind == HK_REGNAME) { Comp x = b; x.host += "x"; add(x); x = b; x.host = ""; add(x); x = b; if (!x.host.empty()) { x.host[0] = (char)toupper((unsigned char)x.host[0]); add(x); } }
         if (b.hostKind == HK_IP4) { Comp x = b; x.host = "1.2.3.5"; unsigned char q[4]; decode_ip4(x.host, q); x.ip.assign((char*)q, 4); add(x); x = b; x.hostKind = HK_REGNAME; x.host = b.host + "x"; x.ip.clear(); add(x); }
         if (b.hostKind == HK_IP6) {
@@ -48,6 +50,9 @@ static void family_of(Rng& r, const Str& seed, StrVec* out) {
     // a component that is another member's plus 256 (or 65536) characters: equal only to a comparison that keeps lengths in 8 / 16 bits
     if (r.chance(1, 6)) { Str pad(r.chance(1, 4) ? 65536 : 256, 'a'); Comp x = b; int w = (int)r.below(4);
         if (w == 0) { x.hasQuery = true; x.query = b.query + pad; } else if (w == 1) { x.hasFrag = true; x.frag = b.frag + pad; } else if (w == 2) x.path += (x.path.empty() && x.hasAuth ? "/" : "") + pad; else if (x.hasAuth) { x.hasUser = true; x.user = b.user + pad; } add(x); }
+    // one percent-encoded triplet with its hex letters in the other case, in whichever component has one: not the same text
+    { Comp x = b; Str* fields[] = {&x.user, &x.host, &x.path, &x.query, &x.frag}; for (Str* f : fields) { size_t p = f->find('%'); while (p != Str::npos && p + 2 < f->size()) { char& h1 = (*f)[p + 1]; char& h2 = (*f)[p + 2];
+          if (isalpha((unsigned char)h1) || isalpha((unsigned char)h2)) { Comp y = x; if (isalpha((unsigned char)h1)) h1 = (char)(h1 ^ 0x20); else h2 = (char)(h2 ^ 0x20); add(x); x = y; break; } p = f->find('%', p + 1); } } }
     std::set<Str> seen;
     for (const Comp& x : v) {
         Str t;      // render with the host text as written (not the canonical IPv6 form), to get different spellings of one address
